@@ -60,6 +60,11 @@ def typestate_check(rep, repo, rule, configs, label=''):
                          got='the criterion loop is left during %s although no non-Optimal status has been observed (a criterion that performs no solve ends the run)' % show(e.value[1][0]),
                          want='return only when a status test found a non-Optimal status', construct='early exit without a failed solve in %s' % e.func.qualname, loc=e.loc)
                 continue
+            if kind == 'loop-early-exit':
+                rep.fail(rule, e.where, 'a loop that solves once per rank is left early only after a solve was seen not to be Optimal [%s]' % cfg,
+                         got='the loop at %s is left (break / return) after its solve at %s was found Optimal: the remaining ranks are never optimised' % (e.loc, last.loc if last is not None else '?'),
+                         want='leave the loop only when a status test found a non-Optimal status', construct='rank loop left after an Optimal solve in %s' % e.func.qualname, loc=e.loc)
+                continue
             if kind == 'unchecked':
                 msg = 'solve at %s is issued while the status of the previous solve at %s has not been checked' % (e.loc, last.loc if last is not None else '?')
             else:
